@@ -35,6 +35,28 @@ def call_board(seed, L, W, pl, m, fd, force_random=None):
         rg.random = real_random
 
 
+def caller_mutation(ctx):
+    """a caller that edits the board it received must not influence what the next call returns"""
+    for params in ((11, 3, 4, 0.3, 6, False), (12, 2, 5, 0.5, 2, True)):
+        a = call_board(*params)
+        if a["outcome"] != "ok":
+            continue
+        ref = repr(a["board"])
+        moves, rewards, loose = a["board"]
+        try:
+            moves[0][0] = 9
+            rewards.append([99])
+            loose[0].clear()
+        except Exception:  # noqa
+            pass
+        b = call_board(*params)
+        ctx.case({"caller_mutation": list(params)}, True)
+        if repr(b.get("board")) != ref:
+            seed, L, W, pl, m, fd = params
+            ctx.violation("reproducible-after-caller-edits", {"seed": seed, "length": L, "width": W, "prob_loose": pl,
+                                                              "max_reward": m, "force_down": fd}, {"again": repr(b.get("board"))[:200]})
+
+
 def judge_board(ctx, params, r):
     seed, L, W, pl, m, fd = params
     inp = {"seed": seed, "length": L, "width": W, "prob_loose": pl, "max_reward": m, "force_down": fd}
@@ -212,7 +234,9 @@ def check_params(ctx, vals, model=None):
 def run(ctx, model=None):
     ctx.extra["rule"] = RULE
     rng = random.Random(ctx.seed * 275604541 + 15)
-    seeds = [0, 1, 47, 999132423] + [rng.randrange(10 ** 6) for _ in range(10 if ctx.quick() else 3000)]
+    seeds = [0, 1, 47, 999132423, 2 ** 32, 2 ** 32 + 47, 2 ** 64 + 5, 10 ** 30] + \
+        [rng.randrange(10 ** 6) for _ in range(10 if ctx.quick() else 3000)]
+    caller_mutation(ctx)
     shapes = [(1, 1), (1, 2), (2, 1), (3, 3), (5, 5), (2, 7)] if ctx.quick() else \
         [(1, 1), (1, 2), (2, 1), (3, 3), (5, 5), (2, 7), (10, 20), (40, 10), (1, 50), (50, 1)]
     for seed in seeds:
@@ -244,6 +268,10 @@ def run(ctx, model=None):
             vals = list(good)
             vals[pos] = v
             check_params(ctx, vals, model)
+    for combo in ([-2, -3], [-1, -1], [0, -5], [-4, 0]):
+        vals = list(good)
+        vals[1], vals[2] = combo
+        check_params(ctx, vals, model)
     for _ in range(10 if ctx.quick() else 200):
         vals = list(good)
         for pos in rng.sample(range(8), 2):
